@@ -4,7 +4,7 @@ import json, os, subprocess
 ROOT = os.path.dirname(os.path.dirname(os.path.abspath(__file__)))
 # property a fix is recorded under (first matching keyword in the commit subject)
 RULES = [
-    ("skip(n)", "C10"), ("time limit", "C10"), ("multinom", "C10"), ("sample(seq", "C10"), ("pow size pre-check", "C10"), ("pow with an exponent", "C10"), ("common type of two instances", "C04"), ("callable-typed value was assignable", "C04"), ("two function types compared equal", "C04"), ("default-value", "C04"), ("calls through", "C04"), ("dynamic (library) overloads", "C05"), ("forward", "C03"), ("grammar: an identifier", "C03"), ("grammar: 'struct'", "C03"), ("user-defined function", "C06"), ("zip of sequences", "C06"), ("set_default", "C06"),
+    ("skip(n)", "C10"), ("time limit", "C10"), ("multinom", "C10"), ("sample(seq", "C10"), ("pow size pre-check", "C10"), ("pow with an exponent", "C10"), ("common type of two instances", "C04"), ("callable-typed value was assignable", "C04"), ("two function types compared equal", "C04"), ("default-value", "C04"), ("calls through", "C04"), ("dynamic (library) overloads", "C05"), ("default value let the default", "C04"), ("optional compared equal", "C04"), ("turbofish", "C12"), ("exponential compile time", "C12"), ("hash-set order", "C12"), ("forward", "C03"), ("grammar: an identifier", "C03"), ("grammar: 'struct'", "C03"), ("user-defined function", "C06"), ("zip of sequences", "C06"), ("set_default", "C06"),
     ("merge sort", "C19"), ("hash of a set/mapping", "C19"), ("format of i64::MIN", "C14"),
     ("generator", "C16"), ("generators", "C16"),
     ("sequence", "C15"), ("range", "C15"), ("combination", "C15"), ("to_array", "C15"),
@@ -48,6 +48,11 @@ OPEN = [
      "what": "inside fn host<T>(s: int, g: (T)->(int)) the call g(s) is accepted: the argument check of a call through a callable value lets the argument bind the enclosing function's type parameter; host(1, (x: str)->{x.len()}) then passes an int where a str is promised (panic: expected String, got Int)",
      "example": "fn host<T>(s: int, g: (T)->(int))->int{ g(s) }\nlet r = host(1, (x: str)->{x.len()});",
      "why_not_fixed": "requiring an empty binding there breaks shipped scripts 399-401: to_eq / to_cmp / to_lt return callables whose parameters are dangling type parameters (see K-C04-01) and only work because of this hole"},
+    {"id": "K-C01-03", "property": "C01", "status": "open",
+     "sig": r"^panic\|(near_miss|generated|mutant|corpus)\|(instantiate|call)\|[a-z_]+\.rs:error when converting primitive.*\|program_calls_the_result_of_to_cmp_to_eq_or_to_lt$",
+     "what": "to_cmp / to_eq / to_lt return a callable whose parameter types are dangling type parameters (T, T)->(..) (K-C04-01); a call through it is checked argument by argument and each argument may bind T afresh (K-C04-02), so cmp_(4, 1.5) or eq_('a', 'b') is accepted for a key function on int and the key function receives a value of the wrong type",
+     "example": "let k = (i: int)->{ i % 3 };\nlet cmp_ = k.to_cmp();\nlet r = cmp_(4, 12345678901234567890.5);",
+     "why_not_fixed": "see K-C04-01 / K-C04-02: shipped scripts 399-401 depend on the hole"},
     {"id": "K-C02-01", "property": "C02", "status": "open",
      "sig": r"^grammar:lt_gt_in_argument_list\|rejected$",
      "what": "`f(a < b, c > d)`: a bare name followed by `<` inside an argument / element list is parsed as a generic specialisation `a<b, c>` and the program is rejected with a syntax error (e.g. `if(x < y, y > 0, true)`); writing `(x < y)` works",
